@@ -34,6 +34,10 @@
   value-level `processVariables` applied to the dict found at the address, and the heap's `vars`
   component is returned as it was.  The harness compares a deep snapshot of the real objects taken
   before and after every real call with the heap this model returns.
+
+  That statement about the variables side is itself modelled and proved one level down: Model/BaseClientObjects.lean
+  runs `_convert_value` / `separate_files` on a store of list/dict OBJECTS (nested containers by reference,
+  any aliasing) and `executeO` there returns the store it was given (Proofs/BaseClientObjects.lean).
 -/
 import AriadneModel.Model.BaseClient
 
